@@ -1094,7 +1094,10 @@ func (l *Local) canDispose() bool {
 	return len(l.ipv4.InUse()) == 0 &&
 		len(l.ipv6.InUse()) == 0 &&
 		l.allocatingV4.Len() == 0 &&
-		l.allocatingV6.Len() == 0
+		l.allocatingV6.Len() == 0 &&
+		// requests whose ip has arrived but which have not picked it up yet
+		l.dangingV4.Len() == 0 &&
+		l.dangingV6.Len() == 0
 }
 
 // syncIPLocked will mark ip as invalid , if not found in remote
